@@ -669,7 +669,7 @@ class Tr:
                 continue
             if ubs - {db}:
                 continue
-            if any(di <= y < last for y in ylines[db]):
+            if any(di <= y <= last for y in ylines[db]):   # `<= last`: the arguments of a yield primitive are used again by its _post half, after the scheduling point
                 continue
             self.local_vals.add(n)
 
@@ -769,6 +769,21 @@ class Tr:
                 gdefs.append('%s %s = %s;' % (ct, self.cid(n), self.cinit(init, t)))
         ginits += gdefs
         self.cfgs = {}
+        self.vtable_slots = {}    # slot -> functions found in that slot (after the two header entries) of some single-array vtable
+        for n, (t, init, const) in self.globals.items():
+            if not n.startswith('@_ZTV') or init is None:
+                continue
+            try:
+                arrs = init[1] if init[0] == 'agg' else []
+                if len(arrs) != 1 or arrs[0][0] != 'agg':
+                    raise ValueError
+                for i, e in enumerate(arrs[0][1][2:]):
+                    names = set()
+                    self._collect_addr(e, names)
+                    self.vtable_slots.setdefault(i, set()).update(names)
+            except (ValueError, IndexError, TypeError):
+                self.vtable_slots = {}    # a vtable of unknown layout: no restriction at all
+                break
         fbodies = [self.emit_func(f) for f in self.funcs]
         fbodies = [re.sub(r'/\*ICALL(\d+)\*/', self.expand_icall, b) for b in fbodies]
         dist = self.step_distances() if (self.step_prune and self.co_enabled) else {}
@@ -837,16 +852,20 @@ class Tr:
         o = ['#include <stdint.h>', '#include <stddef.h>', '#include <string.h>', '#include <stdlib.h>', '#include "vf_rt.h"']
         o += ['struct T_%s;' % self.cid(n) for n in self.types]
         if self.static_new:
+            ns = max(1, len(self.snew))
             protos.append('uint64_t nondet_ulong(void);')
-            sd = ['void __vf_sdel(void *p) { if (!p) return;']
+            protos.append('static _Bool snew_live[%d];' % ns)
+            protos.append('#ifdef VF_NEW_HOOK\nvoid __vf_new_hook(void *p);\n#define __vf_snew_hook(p) __vf_new_hook(p)\n#else\n#define __vf_snew_hook(p) ((void)0)\n#endif')
+            sd = ['void __vf_sdel(void *p) { if (!p) return; int i = -1;']
             for i, n in enumerate(self.snew):
                 w = (n + 7) // 8
-                protos.append('static uint64_t snew_buf_%d[%d]; static _Bool snew_live_%d;' % (i, w, i))
-                protos.append('void *__vf_snew_%d(void) { __CPROVER_assert(!snew_live_%d, "BOUND: at most one live object per allocation site"); __CPROVER_assume(!snew_live_%d); snew_live_%d = 1; '
-                              'for (int j = 0; j < %d; j++) snew_buf_%d[j] = nondet_ulong(); return (void*)snew_buf_%d; }' % (i, i, i, i, w, i, i))
-                sd.append('  if (p == (void*)snew_buf_%d) { __CPROVER_assert(snew_live_%d, "UB: delete of an object that is not alive (double delete)"); snew_live_%d = 0; '
-                          'for (int j = 0; j < %d; j++) snew_buf_%d[j] = nondet_ulong(); return; }' % (i, i, i, w, i))
-            sd.append('  __vf_free(p); }')
+                protos.append('static uint64_t snew_buf_%d[%d];' % (i, w))
+                protos.append('void *__vf_snew_%d(void) { __CPROVER_assert(!snew_live[%d], "BOUND: at most one live object per allocation site"); __CPROVER_assume(!snew_live[%d]); snew_live[%d] = 1; '
+                              'for (int j = 0; j < %d; j++) snew_buf_%d[j] = nondet_ulong(); __vf_snew_hook((void*)snew_buf_%d); return (void*)snew_buf_%d; }' % (i, i, i, i, w, i, i, i))
+                sd.append('  %sif (p == (void*)snew_buf_%d) i = %d;' % ('else ' if i else '', i, i))
+            # a deleted object is only marked dead (its bytes stay): use after delete is visible through the harness' ghost state, not through CBMC's pointer checks
+            sd.append('  if (i < 0) { __vf_free(p); return; }')
+            sd.append('  __CPROVER_assert(snew_live[i], "UB: delete of an object that is not alive (double delete)"); snew_live[i] = 0; }')
             protos.append('\n'.join(sd))
         o += tdefs + protos + self.frames + ginits
         # dummy bodies for co functions so that `(void*)f` is a valid, distinct address
@@ -949,6 +968,20 @@ class Tr:
                         if ln.count(g) > 1:
                             self.pre_addr_taken.add(g)
 
+    def _collect_addr(self, c, out):
+        if not c:
+            return
+        if c[0] == 'addr':
+            out.add(self.aliases.get(c[1], c[1]))
+        elif c[0] in ('agg', 'cast', 'bitcast') or isinstance(c, tuple):
+            for e in c[1:]:
+                if isinstance(e, tuple):
+                    self._collect_addr(e, out)
+                elif isinstance(e, list):
+                    for x in e:
+                        if isinstance(x, tuple):
+                            self._collect_addr(x, out)
+
     def _scan_const(self, c, names):
         if not c:
             return
@@ -967,9 +1000,15 @@ class Tr:
         return True
 
     def expand_icall(self, m):
-        sig, d, callee, av, in_co, resume_k, dst_l, cur_fn = self.icalls[int(m.group(1))]
+        sig, d, callee, av, in_co, resume_k, dst_l, cur_fn, vslot = self.icalls[int(m.group(1))]
         want = self.nsig(sig[0], sig[1])
         cands = sorted(n for n in self.addr_taken if self.fsig.get(n) == want)
+        if vslot is not None and self.vtable_slots.get(vslot):
+            # virtual call through slot `vslot` of the object's vtable: only functions that some vtable holds in that slot can be called
+            # (anything else ends in __vf_bad_icall below, so a wrong restriction is reported, never silent)
+            rc = [n for n in cands if n in self.vtable_slots[vslot]]
+            if rc:
+                cands = rc
         out = ''
         for n in cands:
             c = self.cid(n)
@@ -1071,6 +1110,22 @@ class Tr:
         self.events = []
         self.cur_bl = None
         self.compute_locals(nm, ps, blocks)
+        # virtual-call pattern: %vt = load F**, F*** %obj ; %s = getelementptr F*, F** %vt, i64 K ; %f = load F*, F** %s  =>  %f is slot K
+        self.vslot = {}
+        vts, slots = set(), {}
+        for b in blocks:
+            for ln in b[1]:
+                m = re.match(r'(%[-\w.$"]+) = load .*\)\*\*, .*\)\*\*\* %', ln)
+                if m:
+                    vts.add(m.group(1))
+                    continue
+                m = re.match(r'(%[-\w.$"]+) = getelementptr inbounds .*\)\*, .*\)\*\* (%[-\w.$"]+), i64 (\d+)$', ln)
+                if m and m.group(2) in vts:
+                    slots[m.group(1)] = int(m.group(3))
+                    continue
+                m = re.match(r'(%[-\w.$"]+) = load .*\)\*, .*\)\*\* (%[-\w.$"]+)(,|$)', ln)
+                if m and (m.group(2) in slots or m.group(2) in vts):
+                    self.vslot[self.lname(m.group(1))] = slots.get(m.group(2), 0)
         insts = {}
         for b in blocks:
             insts[b[0]] = [self.parse_inst(l) for l in b[1]]
@@ -1678,6 +1733,12 @@ class Tr:
             if direct and callee in self.yield_prims and self.co_enabled:
                 if not self.cur_co:
                     raise NotImplementedError('yield primitive in non-co function')
+                if callee == '@__vf_cv_wait' and self.racy_yield:
+                    # racy configuration: wait() releases the mutex and registers the waiter BEFORE its scheduling point; with fields that are
+                    # accessed without a lock the window between evaluating the wait predicate and blocking matters, so it gets its own point
+                    self.resume += 1
+                    self.events.append((self.resume, self.cur_bl, 'def', None))
+                    pre = pre + ['__vf_racy_pre((void*)0); F->pc = %d; return 1; R%d: ; __vf_racy_post((void*)0);' % (self.resume, self.resume)]
                 self.resume += 1
                 k_ = self.resume
                 self.events.append((k_, self.cur_bl, 'def', None))
@@ -1731,7 +1792,7 @@ class Tr:
                     rk = self.resume
                     self.events.append((rk, self.cur_bl, 'icall', self.nsig(sig[0], sig[1])))
                     self.co_extra.append('int ic%d;' % rk)
-                self.icalls.append((sig, d, callee, av, self.cur_co, rk, L(d) if d else None, self.cur_fn))
+                self.icalls.append((sig, d, callee, av, self.cur_co, rk, L(d) if d else None, self.cur_fn, self.vslot.get(callee)))
                 return pre + ['/*ICALL%d*/' % (len(self.icalls) - 1)]
             if d and rt[0] != 'void':
                 return pre + ['%s = %s;' % (L(d), e)]
